@@ -237,6 +237,9 @@ func runVar(c VarCase, r *runlog.R) error {
 	}
 	cfg, err := ucfg.NewFrom(map[string]interface{}{
 		key: c.S, "b": "v", "0": "z", "o": map[string]interface{}{"k": c.S, "n": 1, "o": c.S, "a": "${o}"}, "l": []interface{}{c.S, 1},
+		// the setting under test reached through its alias "element 0 of a value that is no list", directly and
+		// through one more reference
+		"al": "${" + key + ".0}", "al2": "${al}", "al3": "${" + key + ".0.0}",
 	}, varOpts...)
 	if err != nil {
 		r.NonTrivial()
@@ -261,8 +264,62 @@ func runVar(c VarCase, r *runlog.R) error {
 	})}, varOpts...)
 	cfg.Unpack(&m, o2...)
 	cfg.FlattenedKeys(o2...)
+	// list targets follow chains of references
+	var lt struct {
+		Al  []string       `config:"al"`
+		Al2 [1]interface{} `config:"al2"`
+		Al3 []int          `config:"al3"`
+		K   []interface{}  `config:"o.k"`
+	}
+	cfg.Unpack(&lt, varOpts...)
+	cfg.Unpack(&lt, o2...)
+	// a small maximum index also binds text that is parsed after an expansion (a resolver's answer, a spliced
+	// string): no list of the result may be longer than what the texts spell out element by element
+	small := append([]ucfg.Option{ucfg.MaxIdx(2), ucfg.Resolve(func(name string) (string, parse.Config, error) {
+		if name == "r" || name == "nope" {
+			return "{l.900: 1, k.0x20.j: [1], 700: x}", parse.DefaultConfig, nil
+		}
+		return "", parse.DefaultConfig, ucfg.ErrMissing
+	})}, varOpts...)
+	bound := 8 * (2 + strings.Count(c.S, ","))
+	var m2 map[string]interface{}
+	if cfg.Unpack(&m2, small...) == nil {
+		if n := longestInData(m2); n > bound {
+			return fmt.Errorf("unpacked under MaxIdx(2), the result holds a list of %d entries (the texts spell out at most %d)", n, bound)
+		}
+	}
+	for _, k := range []string{key, "al", "al2", "o", "l"} {
+		if n, err := cfg.CountField(k, small...); err == nil && n > bound {
+			return fmt.Errorf("CountField(%q) under MaxIdx(2) = %d (the texts spell out at most %d entries)", k, n, bound)
+		}
+		if ch, err := cfg.Child(k, -1, small...); err == nil {
+			if n := longestList(ch); n > bound {
+				return fmt.Errorf("Child(%q) under MaxIdx(2) holds a list of %d entries (the texts spell out at most %d)", k, n, bound)
+			}
+		}
+	}
 	r.NonTrivialIf(failed)
 	return goroutinesSettled()
+}
+
+func longestInData(v interface{}) int {
+	n := 0
+	switch x := v.(type) {
+	case map[string]interface{}:
+		for _, e := range x {
+			if k := longestInData(e); k > n {
+				n = k
+			}
+		}
+	case []interface{}:
+		n = len(x)
+		for _, e := range x {
+			if k := longestInData(e); k > n {
+				n = k
+			}
+		}
+	}
+	return n
 }
 
 var subVarEnum = runlog.Register(&runlog.Sub[VarCase]{
@@ -277,7 +334,7 @@ var subVarEnum = runlog.Register(&runlog.Sub[VarCase]{
 
 func TestVarExpEnum(t *testing.T) { subVarEnum.Enumerate(t, true) }
 
-var varFragments = []string{"${", "}", "$", "$$", "$}", ":", ":+", ":?", "a", "b", "o", "o.k", "l.0", "l", "0", "x", ".", ",", "[", "]", "{", " ", "${a}", "${self}", "${o}", "${l}", "${b:", "${nope:?", "self"}
+var varFragments = []string{"${", "}", "$", "$$", "$}", ":", ":+", ":?", "a", "b", "o", "o.k", "l.0", "l", "0", "x", ".", ",", "[", "]", "{", " ", "${a}", "${self}", "${o}", "${l}", "${b:", "${nope:?", "self", "${r}", "${nope}", "{l.900: ", "a.800: 1", ".7", "900", "${a.0}", "${self.0}", "${al}", "${al2}"}
 
 func genVarLong(t *rapid.T) VarCase {
 	n := rapid.IntRange(1, 10).Draw(t, "n")
